@@ -4,6 +4,7 @@ pub mod c02;
 pub mod c03;
 pub mod c04;
 pub mod c05;
+pub mod c07;
 pub mod c09;
 pub mod c10;
 pub mod c11;
@@ -19,6 +20,7 @@ pub fn run(prop: &str, tier: Tier) -> Report {
         "C04" => c04::run(tier),
         "C05" => c05::run(tier),
         "C06" => c05::run_c06(tier),
+        "C07" => c07::run(tier),
         "C09" => c09::run(tier),
         "C10" => c10::run(tier),
         "C11" => c11::run(tier),
@@ -39,6 +41,7 @@ pub fn replay(prop: &str, _tier: Tier, case: &serde_json::Value) -> Vec<Violatio
         "C04" => c04::replay(case),
         "C05" => c05::replay(case),
         "C06" => c05::replay_c06(case),
+        "C07" => c07::replay(case),
         "C09" => c09::replay(case),
         "C10" => c10::replay(case),
         "C11" => c11::replay(case),
